@@ -13,7 +13,13 @@ every atomic event carries "mo", the memory_order argument the code passed.  Thi
     exhibits the double take of the last element (NoDup) - reported as a violation although no
     serialised run can show it;
  3. compares every atomic access of the deque functions with the table REQUIRED (what the current
-    sources pass; DESIGN.md section 9): a weaker order is reported, a stronger one accepted.
+    sources pass; DESIGN.md section 9): a weaker order is reported, a stronger one accepted;
+ 4. checks, for every recorded call, that the program order of the accesses to the tracked memory
+    (top, bottom, underlying_array, array slots) is the label order of the model's procedure
+    (table ACCESS_ORDER).  Trace validation explains an event without a memory effect (a load) by
+    zero or more model steps, so two loads swapped in the code (steal reading bottom before top) only
+    show up in the rare schedules where the outcome differs; the program order of one thread in a
+    serialised run is exactly what the compiled code does, so this check sees it in every execution.
 
 Use from check.py:   import extra_c02;  extra_c02.run(ev, report, tier, seed0, outdir)
                      (outdir = $VERIF_OUT_DIR/C02; traces are read from outdir/traces/*.ndjson)
@@ -50,6 +56,14 @@ REQUIRED = {
     (STEAL, "dq.underlying_array", "AL"): [5],
     (STEAL, "dq.top", "CAS"): [5],
 }
+# program order of the tracked accesses of one call = label order of the procedure in
+# spec/thread/WSDeque.tla.in (P1 P2 P3 [G1* P4] P5 P6 / O1 O2 O3 O4 (O5 | O6 [O7 O8]) / S1 S2 S3 [S4 S5])
+ACCESS_ORDER = {
+    "push": r"AL:bottom AL:top AL:underlying_array( (R:slot W:slot )+AS:underlying_array)? W:slot AS:bottom",
+    "pop": r"AL:bottom AL:underlying_array AS:bottom AL:top( AS:bottom| R:slot( CAS:top AS:bottom)?)",
+    "steal": r"AL:top AL:bottom AL:underlying_array( R:slot CAS:top)?",
+}
+LIB_FNS = {PUSH, POP, STEAL, "wsd_circular_array_grow", "wsd_circular_array_get", "wsd_circular_array_put"}
 MO_NAME = {0: "relaxed", 1: "consume", 2: "acquire", 3: "release", 4: "acq_rel", 5: "seq_cst"}
 
 
@@ -65,9 +79,11 @@ def at_least(mo, req):
 
 
 def scan(path):
-    """returns (list of mo of the first bottom store of every pop call, list of (event, required) weaker than REQUIRED)"""
-    pop_orders, weak = [], []
+    """returns (list of mo of the first bottom store of every pop call, list of (event, required) weaker
+    than REQUIRED, list of (op, access sequence) that are not in ACCESS_ORDER)"""
+    pop_orders, weak, misordered = [], [], []
     count = {}     # thread -> {(field, kind): occurrences within the call}
+    calls = {}     # thread -> [op, [tokens]] of the call in progress
     for line in open(path, errors="replace"):
         line = line.strip()
         if not line:
@@ -80,7 +96,18 @@ def scan(path):
         if e.get("k") == "api":
             if e.get("ph") == "call":
                 count[t] = {}
+                calls[t] = [e.get("op"), []]
+            elif e.get("ph") == "ret" and t in calls:
+                op, toks = calls.pop(t)
+                if op in ACCESS_ORDER and not re.fullmatch(ACCESS_ORDER[op], " ".join(toks)):
+                    misordered.append((op, " ".join(toks)))
             continue
+        if t in calls and e.get("fn") in LIB_FNS and "a" in e:
+            obj, fld = e["a"].split(".", 1)
+            if obj == "dq":
+                calls[t][1].append(f"{e['k']}:{fld}")
+            elif re.fullmatch(r"a\d+", obj):
+                calls[t][1].append(f"{e['k']}:slot")
         if "mo" not in e or "a" not in e:
             continue
         key = (e.get("fn"), e["a"], e["k"])
@@ -95,7 +122,7 @@ def scan(path):
             pop_orders.append(e["mo"])
         if not at_least(e["mo"], req):
             weak.append((e, req))
-    return pop_orders, weak
+    return pop_orders, weak, misordered
 
 
 def recheck(trace_dir, tier, report, ev=None, outdir=None, workers=8):
@@ -103,16 +130,21 @@ def recheck(trace_dir, tier, report, ev=None, outdir=None, workers=8):
     paths = sorted(glob.glob(os.path.join(trace_dir, "wsd_*.ndjson")))
     if not paths:
         raise RuntimeError(f"no wsd_*.ndjson traces in {trace_dir}")
-    orders, seen_weak = [], {}
+    orders, seen_weak, seen_mis = [], {}, {}
     for p in paths:
-        po, weak = scan(p)
+        po, weak, mis = scan(p)
         orders += po
+        for op, seq in mis:
+            seen_mis.setdefault((op, seq), p)
         for e, req in weak:
             seen_weak.setdefault((e.get("fn"), e["a"], e["k"], e["mo"], req), p)
     for (fn, a, k, mo, req), p in sorted(seen_weak.items()):
         report(f"memory order weaker than required: {fn} {k} on {a} passes {MO_NAME.get(mo, mo)}, "
                f"the design requires {MO_NAME.get(req, req)}", p,
                {"kind": "memory_order", "fn": fn, "a": a})
+    for (op, seq), p in sorted(seen_mis.items())[:5]:
+        report(f"program order of the shared accesses of {op} differs from the model's label order: "
+               f"recorded `{seq}`, model `{ACCESS_ORDER[op]}`", p, {"kind": "access_order", "op": op})
     if not orders:
         report("cannot extract the memory order of pop_bottom's store of bottom: no such event in "
                f"{len(paths)} recorded executions", paths[0], {"kind": "memory_order", "fn": POP, "a": "dq.bottom"})
